@@ -55,6 +55,47 @@ WITNESSES = {
     "F-C01-h": (_w([("gassign", "x", rd(12)), ("gassign", "y", ("ifexp", ("bin", "sgt", ("gvar", "x"), ("num", -100.0)), ("gvar", "x"), ("call", "fa", [("gvar", "x")]))), wr(28, ("gvar", "y"))],
                    funcs=[{"name": "fa", "params": ["a"], "body": [wr(3, ("lvar", "a")), ("ret", ("bin", "add", ("lvar", "a"), ("num", 1.0)))]}]),
                 "both arms of a conditional expression are evaluated (select): a call in the arm that is not chosen is executed, and emitted twice"),
+    "F-C01-j": (_w([("gassign", "n", ("bin", "add", rd(12), ("num", 3.0))),
+                    ("forRange", True, "i", ("num", 0.0), ("gvar", "n"), ("num", 1.0),
+                     [("gassign", "n", ("bin", "sub", ("gvar", "n"), ("num", 1.0))), wr(28, ("gvar", "i"))], {"nargs": 1}),
+                    ("while", ("num", 1.0), [("yield",)])]),
+                "a `range` bound held in a variable is read again at every iteration: a loop body that changes the variable changes the number of iterations (Python evaluates range(n) once)"),
+    "F-C01-k": (_w([("gassign", "n", ("bin", "add", rd(12), ("num", 3.0))),
+                    ("forRange", True, "i", ("num", 0.0), ("gvar", "n"), ("num", 1.0), [wr(28, ("gvar", "i"))], {"nargs": 1}),
+                    wr(3, ("gvar", "i")),
+                    ("while", ("num", 1.0), [("yield",)])]),
+                "after a for-range loop the loop variable holds the value that failed the exit test (one step past the last iteration), not the last value it had in the body"),
+    "F-C01-l": (_w([("forRange", True, "i", ("num", 0.0), ("num", 6.0), ("num", 1.0),
+                     [("gassign", "i", ("bin", "add", ("gvar", "i"), rd(12))), wr(28, ("gvar", "i"))], {"nargs": 1}),
+                    ("while", ("num", 1.0), [("yield",)])]),
+                "assigning the loop variable inside a for-range body changes the iteration (the variable's register is the iterator): Python restarts from the range's next value"),
+    # the next three: the reference program spells the meaning out, the SOURCE TEXT (third component) uses the construct itself
+    "F-C01-m": (_w([("gassign", "a", rd(12)),
+                    ("ite", ("bin", "and", ("bin", "slt", ("num", 1.0), ("gvar", "a")), ("bin", "slt", ("gvar", "a"), ("num", 3.0))), [wr(28, ("num", 1.0))], [wr(28, ("num", 0.0))]),
+                    ("while", ("num", 1.0), [("yield",)])]),
+                "a chained comparison `1 < a < 3` is compiled as its first comparison only (`1 < a`); the second one is dropped",
+                lambda src: src.replace("if 1 < a and a < 3:", "if 1 < a < 3:")),
+    "F-C01-n": (_w([("gassign", "a", rd(12)),
+                    ("ite", ("bin", "sgt", ("gvar", "a"), ("num", 5.0)), [("ite", ("bin", "sgt", ("call", "fa", [("gvar", "a")]), ("num", 1.0)), [wr(28, ("num", 1.0))], [])], []),
+                    ("gassign", "y", ("call", "fa", [("num", 1.0)])),
+                    ("while", ("num", 1.0), [("yield",)])],
+                   funcs=[{"name": "fa", "params": ["x"], "body": [wr(3, ("lvar", "x")), ("ret", ("lvar", "x"))]}]),
+                "`and` / `or` evaluate both operands: in `a > 5 and fa(a) > 1` the call (and its effects) happens even when `a > 5` is false",
+                lambda src: src.replace("if a > 5:\n    if fa(a) > 1:\n        db.On = 1\n", "if a > 5 and fa(a) > 1:\n    db.On = 1\n")),
+    "F-C01-o": (_w([("gassign", "a", rd(12)),
+                    ("while", ("bin", "slt", ("gvar", "a"), ("num", 3.0)), [("gassign", "a", ("bin", "add", ("gvar", "a"), ("num", 1.0)))]),
+                    wr(28, ("gvar", "a")),
+                    ("while", ("num", 1.0), [("yield",)])]),
+                "the `else:` clause of a `while` loop is dropped without a message (its statements are never emitted)",
+                lambda src: src.replace("while a < 3:\n    a = a + 1\ndb.On = a\n", "while a < 3:\n    a = a + 1\nelse:\n    db.On = a\n")),
+    "F-C01-p": (_w([("gassign", "x", rd(12)), ("expr", ("call", "fa", [("gvar", "x"), ("num", 2.0)])), ("expr", ("call", "fa", [("gvar", "x"), ("num", 2.0)])),
+                    ("while", ("num", 1.0), [("yield",)])],
+                   funcs=[{"name": "fa", "params": ["a", "b"], "body": [wr(3, ("bin", "add", ("lvar", "a"), ("bin", "mul", ("lvar", "b"), ("num", 10.0))))]}]),
+                "keyword arguments of a call are dropped: `fa(b=2, a=x)` passes nothing, the callee reads argument cells nobody wrote",
+                lambda src: re.sub(r"fa\((\w+), 2\)", r"fa(b=2, a=\1)", src)),
+    "F-C01-q": (_w([("gassign", "x", rd(12)), wr(3, ("num", 6.0)), wr(28, ("gvar", "x")), ("while", ("num", 1.0), [("yield",)])]),
+                "a negative index into a constant list (`[4, 5, 6][-1]`, Python: the last element) goes through the select chain like any other number and yields the second element",
+                lambda src: src.replace("db.Mode = 6", "db.Mode = [4, 5, 6][-1]")),
     # the reference program passes both arguments; the SOURCE TEXT (third component) leaves the second one to its default value
     "F-C01-i": (_w([("gassign", "x", rd(12)), ("expr", ("call", "fa", [("gvar", "x"), ("num", 2.0)])), ("expr", ("call", "fa", [("gvar", "x"), ("num", 2.0)])),
                     ("while", ("num", 1.0), [("yield",)])],
